@@ -99,11 +99,14 @@ PROPS = {
         "slip10.pubderive: child of the private key made public vs child of the public key (key bytes, chain code, fingerprint) for random parents and non-hardened indices",
    assumptions=["NIST P-256 only: crypto/elliptic's operations form a cyclic group of order n generated by the base point (hypothesis LawfulW). For secp256k1 the hypothesis is discharged (C17 + N prime + [N]G = 0): shift_commutes_secp256k1 is unconditional"],
    trusted_base=["crypto/elliptic P-256 (external)"]),
- "C17": P("C17",
-   rule="ops: secp.add, secp.double, secp.mul, secp.basemul, secp.oncurve on btccurve.Secp256k1(): random pairs, P=Q, P=-Q, identity on either side and both, scalars 0, 1, 2, n-1, n, n+1, 2n, 2^256-1, n/2, with leading zero bytes, "
+ "C17": P("C17", e2e="Iota.Tie.E2E.Secp",
+   rule="ops: secp.add, secp.double, secp.mul, secp.basemul, secp.oncurve on btccurve.Secp256k1() (each mirrored as gen.secp.* and answered by the GENERATED Add / Double / ScalarMult / ScalarBaseMult / IsOnCurve): random pairs, P=Q, P=-Q, identity on either side and both, scalars 0, 1, 2, n-1, n, n+1, 2n, 2^256-1, n/2, with leading zero bytes, "
         "lengths 0..40, multiples of the identity; IsOnCurve on curve points, near misses and (0,0)",
-   assumptions=["none about the curve: P and N prime and ord(G) = N are theorems (Pratt certificates, kernel-evaluated [N]G = 0)"],
-   trusted_base=["Mathlib's elliptic-curve group law (WeierstrassCurve.Affine.Point) and lucas_primality", "math/big modelled on Int"]),
+   assumptions=["none about the curve: P and N prime and ord(G) = N are theorems (Pratt certificates, kernel-evaluated [N]G = 0)",
+                "(*big.Int).ModInverse, a parameter of the translated code, behaves as documented: inverse in [0, n) when it exists, nil only when g and n are not coprime (structure ExternsSpec, met by the model's extended Euclid)",
+                "*big.Int arguments and the receiver's CurveParams are not nil; no concurrent writer of the arguments (stated in the header of Gen/Secp256k1Code.lean)"],
+   trusted_base=["Mathlib's elliptic-curve group law (WeierstrassCurve.Affine.Point) and lucas_primality",
+                 "math/big Mul/Add/Sub/Mod/Lsh/Set/SetInt64/Sign/Cmp by their documented meaning on Int (translator stage 10: *big.Int as a value under a syntactically checked ownership discipline); executed against the real functions by the gen.secp.* ops and audit/stage10-validation"]),
  "C13": P("C13", race=True,
    rule="ops: mine.trace = one recorded execution of the real Mine (hook events spawn / batch / saw-done / store / send / wg.Done / Wait returned / close / recv / watcher arms / cancel, with the result), replayed by the Lean validator "
         "against the transition system (every event must be an enabled step, the run must end in `returned` with the reported result); mine.runtime = goroutines alive 200 ms after return, time from cancel() to return, unexpected errors "
